@@ -29,13 +29,32 @@ import (
 // ---------------------------------------------------------------- terms
 
 type node struct {
-	kind string // B S M Z L I O R F G A P C Y y
+	kind string // B S M Z L I O R F G A P C Y y, W = kids[0] after the operations `pre` (used before being composed)
 	data []byte
 	a, b int64 // parameters (B: nbits or -1; S: off,n; Z: n; L: n; A: minRead; P: precision,total; G: size,seed)
 	kids []*node
+	pre  []op
+	obj  any // the Go object built for this node (shared: a part stays reachable after it was composed)
 }
 
-func (n *node) isByte() bool { return strings.Contains("RFGAPCYy", n.kind) }
+func (n *node) isByte() bool { return strings.Contains("RFGAPCYy", n.real().kind) }
+
+// real skips W wrappers (W is not a reader of its own: it is its kid, used)
+func (n *node) real() *node {
+	for n.kind == "W" {
+		n = n.kids[0]
+	}
+	return n
+}
+
+// at follows a child path (indices of the model's sub-readers)
+func (n *node) at(path []int) *node {
+	c := n.real()
+	for _, i := range path {
+		c = c.kids[i].real()
+	}
+	return c
+}
 
 func genByte(seed, i int64) byte { return byte((i*7 + i/256*13 + seed) % 256) }
 
@@ -50,6 +69,8 @@ func genData(size, seed int64) []byte {
 // bits (bit nodes) or bytes (byte nodes) the node stands for
 func (n *node) length() int64 {
 	switch n.kind {
+	case "W":
+		return n.kids[0].length()
 	case "B":
 		if n.a < 0 {
 			return int64(len(n.data)) * 8
@@ -97,6 +118,15 @@ func (n *node) shape() string {
 func (n *node) write(sb *strings.Builder, full bool) {
 	sb.WriteString(n.kind)
 	sb.WriteByte(' ')
+	if n.kind == "W" {
+		if full {
+			fmt.Fprintf(sb, "%d ", len(n.pre))
+			for _, o := range n.pre {
+				sb.WriteString(strings.ReplaceAll(o.String(), " ", ","))
+				sb.WriteByte(' ')
+			}
+		}
+	}
 	if full {
 		switch n.kind {
 		case "B":
@@ -143,9 +173,21 @@ func (b *built) file(data []byte) *os.File {
 	return f
 }
 
-// build constructs the real Go object for a term
+// build constructs the real Go object for a term and remembers it in the node
 func (b *built) build(n *node) any {
+	n.obj = b.build1(n)
+	return n.obj
+}
+
+func (b *built) build1(n *node) any {
 	switch n.kind {
+	case "W":
+		o := b.build(n.kids[0])
+		for _, p := range n.pre {
+			cur := o
+			runOp(&cur, p)
+		}
+		return o
 	case "B":
 		return bitio.NewBitReader(n.data, n.a)
 	case "S":
@@ -246,6 +288,13 @@ func parseTerm(ws []string) (*node, []string) {
 		sub()
 	case "I", "C", "Y", "y", "O":
 		sub()
+	case "W":
+		c := num()
+		for i := int64(0); i < c; i++ {
+			n.pre = append(n.pre, parseOp(strings.ReplaceAll(ws[0], ",", " ")))
+			ws = ws[1:]
+		}
+		sub()
 	case "R", "F":
 		n.data = hlib.UnHex(ws[0])
 		ws = ws[1:]
@@ -262,9 +311,19 @@ type op struct {
 	n    int64
 	off  int64
 	w    string // s c e
+	path []int  // non-nil: the op is performed on the sub-reader at this child path (an aliased part)
 }
 
 func (o op) String() string {
+	if o.path != nil {
+		ss := make([]string, len(o.path))
+		for i, x := range o.path {
+			ss[i] = strconv.Itoa(x)
+		}
+		q := o
+		q.path = nil
+		return "@" + strings.Join(ss, ".") + " " + q.String()
+	}
 	switch o.kind {
 	case "ra", "raf":
 		return fmt.Sprintf("%s %d %d", o.kind, o.n, o.off)
@@ -278,6 +337,18 @@ func (o op) String() string {
 
 func parseOp(s string) op {
 	ws := strings.Fields(s)
+	if strings.HasPrefix(ws[0], "@") {
+		o := parseOp(strings.Join(ws[1:], " "))
+		o.path = []int{}
+		for _, x := range strings.Split(ws[0][1:], ".") {
+			v, err := strconv.Atoi(x)
+			if err != nil {
+				panic(err)
+			}
+			o.path = append(o.path, v)
+		}
+		return o
+	}
 	num := func(i int) int64 {
 		v, err := strconv.ParseInt(ws[i], 10, 64)
 		if err != nil {
@@ -450,7 +521,13 @@ func (rn *runner) history(t *node, ops []op) {
 			panic("harness: cannot build " + t.term() + ": " + s)
 		}
 		for _, o := range ops {
-			s, panicked := hlib.Catch(func() string { return runOp(&cur, o) })
+			s, panicked := hlib.Catch(func() string {
+				if o.path != nil {
+					tgt := t.at(o.path).obj
+					return runOp(&tgt, o)
+				}
+				return runOp(&cur, o)
+			})
 			if panicked {
 				if strings.HasPrefix(s, "panic: harness:") || strings.Contains(s, "interface conversion") {
 					panic(s + " in " + t.term() + " | " + o.String())
@@ -649,6 +726,8 @@ func boundaries(t *node) []int64 {
 			s += k.length()
 			bs = append(bs, s)
 		}
+	case "W":
+		return boundaries(t.kids[0])
 	case "S", "L", "Y", "y", "A", "P", "C", "I", "O":
 		for _, b := range boundaries(t.kids[0]) {
 			switch t.kind {
@@ -790,6 +869,117 @@ func (g *gen) ops(t *node) []op {
 		ops = append(ops, o)
 	}
 	return ops
+}
+
+// aliasing: readers that are used (read, seeked) BEFORE they are handed to a constructor and are read again,
+// directly, AFTER they were composed, interleaved with operations on the composition
+func (g *gen) used(n *node) *node {
+	if g.r.Intn(3) == 0 {
+		return n
+	}
+	w := &node{kind: "W", kids: []*node{n}}
+	l := n.length()
+	for k := g.r.Range(1, 3); k > 0; k-- {
+		switch {
+		case n.kind == "Z" || g.r.Intn(3) == 0:
+			w.pre = append(w.pre, op{kind: "sk", off: int64(g.r.Intn(int(l) + 1)), w: "s"})
+		default:
+			w.pre = append(w.pre, op{kind: "rd", n: int64(g.r.Range(0, 30))})
+		}
+	}
+	return w
+}
+
+func (g *gen) part(allowZero bool) *node {
+	switch g.r.Intn(6) {
+	case 0:
+		if allowZero {
+			return g.used(&node{kind: "Z", a: int64(g.r.Range(0, 40))})
+		}
+	case 1:
+		k := g.used(&node{kind: "B", data: g.data(12), a: -1})
+		off, n := g.sub(k.length())
+		return g.used(&node{kind: "S", a: off, b: n, kids: []*node{k}})
+	case 2:
+		return g.used(&node{kind: "M", kids: []*node{g.part(true), g.part(true)}})
+	}
+	d := g.data(12)
+	nb := int64(-1)
+	if g.r.Bool() {
+		nb = int64(g.r.Intn(len(d)*8 + 1))
+	}
+	return g.used(&node{kind: "B", data: d, a: nb})
+}
+
+// paths of the bit readers inside t that a history may address directly
+func partPaths(t *node, prefix []int, out *[][]int) {
+	r := t.real()
+	for i, k := range r.kids {
+		kr := k.real()
+		if !strings.Contains("BSMZ", kr.kind) {
+			continue
+		}
+		p := append(append([]int{}, prefix...), i)
+		*out = append(*out, p)
+		partPaths(k, p, out)
+	}
+}
+
+func (g *gen) aliasHistory() (*node, []op) {
+	var t *node
+	switch g.r.Intn(6) {
+	case 0:
+		k := g.part(true)
+		off, n := g.sub(k.length())
+		t = &node{kind: "S", a: off, b: n, kids: []*node{k}}
+	case 1:
+		t = &node{kind: "L", a: int64(g.r.Range(0, 120)), kids: []*node{g.part(false)}}
+	case 2:
+		t = &node{kind: []string{"Y", "y"}[g.r.Intn(2)], kids: []*node{g.part(false)}}
+	default:
+		t = &node{kind: "M"}
+		for i := g.r.Range(1, 3); i > 0; i-- {
+			t.kids = append(t.kids, g.part(true))
+		}
+		if g.r.Intn(3) == 0 {
+			off, n := g.sub(t.length())
+			t = &node{kind: "S", a: off, b: n, kids: []*node{t}}
+		}
+	}
+	var paths [][]int
+	partPaths(t, nil, &paths)
+	var ops []op
+	for _, o := range g.ops(t) {
+		if o.kind == "cl" {
+			continue // a clone is a new object: the parts named by the paths belong to the original
+		}
+		if len(paths) > 0 && g.r.Intn(3) == 0 {
+			p := paths[g.r.Intn(len(paths))]
+			pn := t.at(p)
+			l := pn.length()
+			bs := boundaries(pn)
+			var q op
+			switch {
+			case pn.kind == "Z" && g.r.Bool(), g.r.Intn(4) == 0:
+				q = g.seekOp("sk", bs, l, nil)
+				if q.w != "c" && g.r.Bool() {
+					q = op{kind: "sk", off: 0, w: "c"} // where does the part stand?
+				}
+			case pn.kind == "Z":
+				q = op{kind: "ra", n: g.size(), off: g.pos(bs, l, false)}
+			case g.r.Intn(5) == 0:
+				q = op{kind: "rf", n: int64(g.r.Range(0, 40))}
+			case g.r.Intn(4) == 0:
+				q = op{kind: "ra", n: g.size(), off: g.pos(bs, l, false)}
+			default:
+				q = op{kind: "rd", n: int64(g.r.Range(0, 40))}
+			}
+			q.path = p
+			ops = append(ops, q)
+		}
+		ops = append(ops, o)
+	}
+	return t, ops
 }
 
 // ---------------------------------------------------------------- sub-suites
@@ -1079,6 +1269,10 @@ func (rn *runner) quirks() {
 		"h I A 8 P 1024 0 C F - | ra 8 0 ; sk 0 e ; rd 1",
 		"h Y B 123456 13 | ird 1 ; isk 0 c ; ird 1",
 		"h Y B 123456 13 | isk -1 e ; ird 1",
+		// aliasing: a part keeps its own cursor when it is composed (NewMultiReader restores it) and afterwards
+		"h M 2 W 1 rd,4 B 1234 -1 B 56 -1 | raf 24 0 ; @0 sk 0 c ; @0 rd 4 ; @1 rd 8 ; rd 24",
+		"h M 2 B ab -1 B cd -1 | @0 rd 8 ; @1 sk 0 c ; ra 16 0",
+		"h L 12 W 1 rd,3 B abcd -1 | rd 5 ; @0 sk 0 c ; @0 rd 2 ; rd 8",
 	} {
 		rn.replayLine(l)
 	}
@@ -1181,6 +1375,16 @@ func main() {
 		t := gb.top()
 		rn.history(t, gb.ops(t))
 	}
+	ga := &gen{r: r.Fork()}
+	nAlias := nHist / 3
+	for i := 0; i < nAlias; i++ {
+		t, ops := ga.aliasHistory()
+		rn.history(t, ops)
+		if i < 2 {
+			o.Sample("h " + t.term() + " | " + ops[0].String() + " ; …")
+		}
+	}
 	o.Stat("random_histories", nHist)
 	o.Stat("random_histories_api_level", nBare)
+	o.Stat("aliasing_histories", nAlias)
 }
